@@ -159,6 +159,10 @@ pub fn check(c: &Case, obs: &mut Obs) -> Result<(), Fail> {
             return Ok(());
         }
     };
+    let mut built = built;
+    if let Some(what) = built.edit_after_build(c.build.hash() ^ 0x12) {
+        obs.label(&format!("modules_edited_after_build:{}", what));
+    }
     let n = built.size();
     let vals = built.values();
     let recycled = c.build.hash() % 8 == 3;
